@@ -326,7 +326,7 @@ func TestC27(t *testing.T) {
 		return false
 	}
 
-	rt.Check(t, rec, "arith", 40000, 1000000, func(t *rapid.T) {
+	rt.Check(t, rec, "arith", 40000, 1500000, func(t *rapid.T) {
 		xs, ys, cls := genPair(t)
 		xd, x := xs.build()
 		yd, y := ys.build()
@@ -385,7 +385,7 @@ func TestC27(t *testing.T) {
 		}
 	})
 
-	rt.Check(t, rec, "string", 20000, 500000, func(t *rapid.T) {
+	rt.Check(t, rec, "string", 20000, 800000, func(t *rapid.T) {
 		xs := genDspec(t, "x")
 		d, x := xs.build()
 		if d.Sign() != 0 && !d.IsInf() && d.Exp() == -128 {
@@ -420,7 +420,7 @@ func TestC27(t *testing.T) {
 	})
 
 	// dnum.New itself: normalisation and rounding of 1..19 digit coefficients
-	rt.Check(t, rec, "new", 20000, 500000, func(t *rapid.T) {
+	rt.Check(t, rec, "new", 20000, 800000, func(t *rapid.T) {
 		var coef uint64
 		switch gen.Uniform(t, "ncls", 4) {
 		case 0:
